@@ -1,16 +1,20 @@
 #!/bin/bash
-# usage: seed_run.sh <seeded-dir> <prop> [more props...]  -- applies seeded/<..>/patch.diff to /repo, runs the
-# quick check of each property, reverts the patch. Prints one line per property: DETECTED / MISSED.
+# usage: seed_run.sh <seeded-dir> <prop> [more props...]
+# Applies seeded/<..>/patch.diff to a scratch copy of /repo (never to /repo itself), runs the quick check of each
+# property against that copy, removes the copy. Prints one line per property: DETECTED <obligations> / MISSED.
 set -u
 d=$(realpath $1); shift
 cd /verif
-git -C /repo apply "$d/patch.diff" || { echo "patch does not apply"; exit 2; }
-trap 'git -C /repo apply -R "'$d'/patch.diff"' EXIT
+scratch=$(mktemp -d /tmp/seedrepo.XXXXXX)
+trap 'rm -rf "$scratch"' EXIT
+rsync -a --exclude .git /repo/ "$scratch/"
+( cd "$scratch" && patch -p1 -s --fuzz=3 < "$d/patch.diff" ) || { echo "patch does not apply"; exit 2; }
 for p in "$@"; do
-  out=$(./bin/govc -prop $p -tier quick -work /verif/work/seed-$p 2>&1)
+  out=$(./bin/govc -repo "$scratch" -prop $p -tier quick -work /tmp/seedwork.$$ 2>&1)
+  rm -rf /tmp/seedwork.$$
   if echo "$out" | grep -q "^VIOLATION"; then
-    echo "$p DETECTED $(echo "$out" | grep '^VIOLATION' | sed 's/.*obligation=\([^ ]*\).*/\1/' | sort -u | head -5 | paste -sd,)"
+    echo "$p DETECTED $(echo "$out" | grep '^VIOLATION' | sed 's/.*obligation=\([^ ]*\).*/\1/' | sort -u | head -4 | paste -sd,)"
   else
-    echo "$p MISSED $(echo "$out" | tail -1)"
+    echo "$p MISSED $(echo "$out" | tail -1 | cut -c1-120)"
   fi
 done
